@@ -194,7 +194,7 @@ def getStoreUpdates (w : World) (modeOf : Nat → UpdateMode) : Except Panic Upd
             match lookup n with
             | some (some r) =>
               if (modeOf n).pruneNonImportable then
-                (n, keepIdx l (fun i a => a.importable || r.has (.localAudit i)))
+                (n, keepIdx l (fun i a => a.importable || isViolation a || r.has (.localAudit i)))
               else (n, keepIdx l (fun _ _ => true))
             | _ => (n, keepIdx l (fun _ _ => true)))
           let imports := s.imports.zipIdx.map (fun (f, ii) =>
